@@ -39,7 +39,7 @@ func FQDN(domain string) string {
 // domains are simply converted to local-case using strings.ToLower, but the
 // error is also returned.
 func ForLookup(domain string) (string, error) {
-	uDomain, err := idna.ToUnicode(LowerASCII(domain))
+	uDomain, err := idna.ToUnicode(LowerALabels(domain))
 	if err != nil {
 		return strings.ToLower(domain), err
 	}
@@ -54,30 +54,38 @@ func ForLookup(domain string) (string, error) {
 	return uDomain, nil
 }
 
-// LowerASCII converts ASCII letters to lower case and leaves everything
-// else untouched.
+// LowerALabels converts the labels that carry the ACE prefix ("xn--" in any
+// letter case) to lower case and leaves all other labels untouched.
 //
 // The ACE prefix and the A-label itself are case-insensitive (RFC 5890
 // Section 2.3.2.1, RFC 3492 Section 5) but idna.ToUnicode recognizes only
-// the lower-case "xn--" prefix.
-func LowerASCII(s string) string {
-	hasUpper := false
-	for i := 0; i < len(s); i++ {
-		if s[i] >= 'A' && s[i] <= 'Z' {
-			hasUpper = true
-			break
+// the lower-case "xn--" prefix. Other labels are not changed here: lower-casing
+// ASCII letters of a U-label before it is normalized to NFC would change the
+// result for sequences like "I" + U+0307 that compose with the upper-case
+// letter only.
+func LowerALabels(domain string) string {
+	if len(domain) < 4 {
+		return domain
+	}
+	labels := strings.Split(domain, ".")
+	changed := false
+	for i, label := range labels {
+		if len(label) < 4 || !strings.EqualFold(label[:4], "xn--") {
+			continue
 		}
-	}
-	if !hasUpper {
-		return s
-	}
-	b := []byte(s)
-	for i, c := range b {
-		if c >= 'A' && c <= 'Z' {
-			b[i] = c + ('a' - 'A')
+		b := []byte(label)
+		for j, c := range b {
+			if c >= 'A' && c <= 'Z' {
+				b[j] = c + ('a' - 'A')
+				changed = true
+			}
 		}
+		labels[i] = string(b)
 	}
-	return string(b)
+	if !changed {
+		return domain
+	}
+	return strings.Join(labels, ".")
 }
 
 // Equal reports whether domain1 and domain2 are equivalent as defined by
